@@ -309,11 +309,13 @@ class World(BaseWorld):
 
     def expected_probes(self, tier):
         return ['dk_ctor', 'dr_ctor', 'length_set_after_dk', 'length_set_after_dr', 'nonpow2', 'decimal_spacing', 'refused_transform',
-                'two_setter_kinds', 'roundtrip', 'linearity', 'sine_matrix_oracle', 'ma_to_fourier', 'ma_to_real']
+                'two_setter_kinds', 'roundtrip', 'linearity', 'sine_matrix_oracle', 'ma_to_fourier', 'ma_to_real', 'ma_integer_type_names',
+                'ma_data_layout_F', 'ma_data_layout_T', 'ma_data_layout_block']
 
     def rule(self):
         return ('Each run = one seed -> construct(length in 1..300 incl. primes and 2^k+-1, or 512..4096; via dr or dk; spacing log-uniform '
                 '1e-3..2 or a "decimal" value users type) + 1-9 ops over {set dr, set dk, set length, re-construct, roundtrip(noise|smooth|spike|const), '
+                'MatrixArray transforms on user data of any memory layout (C, Fortran, transposed stack, block slice) and type names (letters, words, integer permutations), '
                 'linearity, explicit sine-matrix oracle (N<=256), MatrixArray transform sequences rank 1-4 incl. repeats}. After every op: '
                 'len(r)=len(k)=length, r_i=(i+1)dr, k_j=(j+1)dk, setter took effect, dr*dk*length=pi, r/k/dk/long_r and both transforms equal '
                 'those of a fresh Domain(length, dr). Non-trivial: a transform oracle ran after >= 2 setter calls of different kinds. '
